@@ -330,6 +330,9 @@ def malformed_catalogue(n_clusters=3):
         ("empty (0,3)", np.zeros((0, N_FEATURES))), ("no features (12,0)", np.zeros((N_SAMPLES, 0))),
         ("empty list", []), ("scalar", 3.0), ("None", None),
         ("ragged", [[1.0, 2.0, 3.0], [1.0, 2.0]] * 3),
+        # text that SPELLS numbers is still non-numeric data
+        ("numeric text (str dtype)", X.astype(str)), ("numeric text (bytes dtype)", X.astype("S")),
+        ("numeric text (lists of str)", [[str(v) for v in r] for r in X.tolist()]),
         ("complex", X.astype(complex) + 1j),
         (f"n < n_clusters ({n_clusters - 1} x 3)", X[:n_clusters - 1].copy()),
     ]
